@@ -117,6 +117,20 @@ def run_group(arg):
                         break
                     if edge:
                         continue
+                    # instances are independent: building and evaluating ANOTHER reconstruction (other beam energy,
+                    # slice count, probe) must not change what this one predicts
+                    if pad == (0, 0):
+                        other_sim = tp.simulate(gpts=(2, 2), roi=(4, 4), num_slices=2, num_probe_modes=1, energy=300e3,
+                                                slice_thickness=5.0, sampling=0.4, step_px=1, seed=3)
+                        other = tp.build(other_sim, obj_type=ot)
+                        tp.forward_loss(other, "l2_amplitude", None)
+                        for lt in LOSSES[:2]:
+                            v = tp.forward_loss(p, lt, None)
+                            if not np.isfinite(v) or abs(v) > ZERO_TOL[lt]:
+                                out.append(("C02:instances-not-independent", f"{tag} {ot}: after another reconstruction object (300 kV) was built "
+                                            f"and evaluated, the loss of THIS object at its ground truth is {v:.3g}"))
+                                break
+                        del other
                     # perturbed object against the unperturbed data: strictly larger loss
                     for pc in perts[: (1 if quick else None)]:
                         if pc["inten"] == base["inten"]:
